@@ -27,7 +27,7 @@ import (
 
 type ftOp struct {
 	name  string
-	js    string                       // expression over a, b (and c for sort)
+	js    string                        // expression over a, b (and c for sort)
 	goOp  func(a, b goja.String) string // Go API operation (js == "")
 	model func(x, y S) string
 }
